@@ -101,6 +101,31 @@ func VerifyFunc(ld *Loader, specs *Specs, fk string, safetyOnly bool) (res *Func
 			for _, o := range ex.vc.obls {
 				o.ModelOf = append(append([]string(nil), ex.modelSyms...), ex.frameSyms...)
 			}
+			// struct shapes: a hand-written codec covers exactly the fields it was written for
+			for _, sh := range fc.Shapes {
+				f := strings.Fields(sh)
+				if len(f) < 2 {
+					continue
+				}
+				got := "?"
+				if pk := pkgOfFn(fn); pk != nil {
+					if obj := pk.Scope().Lookup(f[0]); obj != nil {
+						if st, ok := obj.Type().Underlying().(*types.Struct); ok {
+							var names []string
+							for i := 0; i < st.NumFields(); i++ {
+								names = append(names, st.Field(i).Name())
+							}
+							got = strings.Join(names, " ")
+						}
+					}
+				}
+				goal := TTrue
+				if got != strings.Join(f[1:], " ") {
+					goal = TFalse
+				}
+				o := ex.vc.Oblige("forbid", "fields-of-"+f[0]+":"+strings.Join(f[1:], ","), TTrue, goal, "struct "+f[0]+" has fields: "+got)
+				o.ModelOf = nil
+			}
 			// forbidden calls: a syntactic obligation over the function and all its closures
 			for i, fb := range fc.Forbid {
 				kindWord, want := firstWord(fb.Text)
